@@ -228,6 +228,12 @@ def run_case(R, level, variant, op, auth_pw, priv_pw, engine_id, ctx_name, boots
         new_pw, new_variant = rotate
         from puresnmp import V3, Auth, Priv
 
+        if new_pw is None:
+            # same privacy password, same engine, but the user now authenticates with the
+            # OTHER hash: the privacy key is localised with that hash, so it changes too
+            new_pw = priv_pw
+            hashname = "sha1" if hashname == "md5" else "md5"
+            level = "v3-%s-priv" % hashname
         w.agent.users[rig.USER.encode()] = rig.agent_user_for(level, auth_pw=auth_pw, priv_pw=new_pw, variant=new_variant)
         c.configure(credentials=V3(rig.USER, Auth(auth_pw, hashname), Priv(new_pw, new_variant)))
         privxf.CALLS.clear()
@@ -278,6 +284,8 @@ def run(R):
         rotate = None
         if i % 4 == 1:
             rotate = (bytes(rng.randint(33, 126) for _ in range(rng.choice((1, 8, 13)))), VARIANTS[(i // 4) % len(VARIANTS)])
+        elif i % 4 == 3:
+            rotate = (None, variant)  # switch md5 <-> sha1, keep the privacy password
         run_case(R, level, variant, op, auth_pw, priv_pw, engine_id, ctx_name, boots, tshift, marker, rotate=rotate)
         if i % 10 == 7:
             run_noauth_priv(R, variant, priv_pw, engine_id, marker)
@@ -290,4 +298,6 @@ def replay(R, v):
         run_noauth_priv(R, c["variant"], h("priv_pw"), h("engine_id"), h("marker"))
         return
     rotate = (h("rotated_priv_pw"), c["variant"]) if "rotated_priv_pw" in c else None
+    if rotate is not None and rotate[0] == h("priv_pw"):
+        rotate = (None, c["variant"])
     run_case(R, c["level"], c["variant"], c["op"], h("auth_pw"), h("priv_pw"), h("engine_id"), h("ctx_name"), c["boots"], c["tshift"], h("marker"), rotate=rotate)
